@@ -272,6 +272,26 @@ example :
       (SimSt.run (fun _ => 0) exSimCfg exSimSched 1 (SimSt.init exSimCfg true)).1).1.net.1.occ "S0" = some "a" := by
   decide +kernel
 
+/-- `exSimCfg` with `c` asking for nothing: `c` is satisfied the moment it arrives -/
+def exSimCfgC0 : Sim.Cfg ℚ :=
+  { exSimCfg with evs := exSimCfg.evs.map fun e => if e.session = "c" then { e with requested := 0 } else e }
+
+/-- the inner implication is exercised too: with `c` satisfied on arrival, after 2 periods somebody
+    (`b`) still waits while a SATISFIED EV (`c`) holds the station — and, as the theorem says, that EV
+    was in the queue (on no station) while period 1 was charged: the hook has just swapped it in
+    (it is swapped out again by the next period's hook if `b` is still there) -/
+example :
+    (SimSt.run (fun _ => 0) exSimCfgC0 exSimSched 2 (SimSt.init exSimCfgC0 true)).2 = none ∧
+    (SimSt.run (fun _ => 0) exSimCfgC0 exSimSched 2 (SimSt.init exSimCfgC0 true)).1.net.1.waiting = ["b"] ∧
+    (SimSt.run (fun _ => 0) exSimCfgC0 exSimSched 2 (SimSt.init exSimCfgC0 true)).1.net.1.occ "S0" = some "c" ∧
+    SimSt.fullOf exSimCfgC0 (SimSt.run (fun _ => 0) exSimCfgC0 exSimSched 2 (SimSt.init exSimCfgC0 true)).1.net.2 "c"
+      = true ∧
+    (eventsStageG heapQ (SimSt.netOps (fun _ => 0) exSimCfgC0) exSimCfgC0.core
+      (SimSt.run (fun _ => 0) exSimCfgC0 exSimSched 1 (SimSt.init exSimCfgC0 true)).1).1.net.1.waiting = ["c", "b"] ∧
+    (eventsStageG heapQ (SimSt.netOps (fun _ => 0) exSimCfgC0) exSimCfgC0.core
+      (SimSt.run (fun _ => 0) exSimCfgC0 exSimSched 1 (SimSt.init exSimCfgC0 true)).1).1.net.1.occ "S0" = some "a" := by
+  decide +kernel
+
 /-- … and the invariant FAILS for a loop that skips the hook in idle periods (`postIdle`): period 1 is
     charged at 0 A (`a`, satisfied after period 0, is no longer scheduled), the hook is skipped, and
     after 2 periods the satisfied `a` still holds "S0" although `c` and `b` wait; the occupancy log
